@@ -42,6 +42,11 @@ def func_source(src: str, qualname: str) -> Tuple[str, int]:
             if isinstance(ch, (ast.FunctionDef, ast.ClassDef, ast.AsyncFunctionDef)) and ch.name == p:
                 node = ch
                 break
+            if isinstance(ch, (ast.Assign, ast.AnnAssign)):     # module / class level constant
+                tg = ch.targets if isinstance(ch, ast.Assign) else [ch.target]
+                if any(isinstance(t, ast.Name) and t.id == p for t in tg):
+                    node = ch
+                    break
         else:
             raise KeyError(qualname)
     seg = ast.get_source_segment(src, node) or ""
